@@ -125,7 +125,9 @@ def build(targets, jobs=16, verbose=False):
             fl = fitter_flags if s in FIT_SRC else []
             jobs_list.append((variant, os.path.join(REPO, s), o, fl))
             objs.append(o)
-        hsrcs = [os.path.join(VERIF, 'harness', t['harness'])] + [os.path.join(VERIF, 'harness', e) for e in t.get('extra_src', [])]
+        def _hp(x):
+            return os.path.join(REPO, x[5:]) if x.startswith('repo:') else os.path.join(VERIF, 'harness', x)
+        hsrcs = [_hp(t['harness'])] + [_hp(e) for e in t.get('extra_src', [])]
         common = [os.path.join(VERIF, 'harness', 'common', f) for f in sorted(os.listdir(os.path.join(VERIF, 'harness', 'common')))]
         hh = _hash_files(hsrcs + common, ' '.join(t.get('extra_flags', [])) + ' '.join(t.get('libs', [])))
         name = t.get('name') or (os.path.splitext(os.path.basename(t['harness']))[0] + '.' + variant)
